@@ -95,8 +95,12 @@ def run(scn, keep_log=False):
                                   'tid': getattr(result, 'transaction_id', None), 'cls': type(result).__name__})
                 return None
 
-            def eb(failure, rec=rec):
+            def eb(failure, rec=rec, ev=ev):
                 rec['eb'].append({'seq': k.log('errback', rec['id']), 'type': failure.type.__name__})
+                if ev.get('reissue') and not rec.get('reissued'):
+                    # the application retries from inside its errback (a common pattern)
+                    rec['reissued'] = True
+                    issue(dict(ev['reissue'], e='req'))
                 return None
             d.addCallbacks(cb, eb)
 
